@@ -19,7 +19,8 @@ def run(tier, only=None):
               10: (0,), 11: (0,), 12: (0, 3), 13: (1,)}
     for op in range(len(OPS)):
         for fld in (per_op[op] if tier == "quick" else range(4)):
-            conds.append(Cond("harness.h_c11", "h_readonly", t, part=fld * 100 + op, ladder=ladder,
+            lad = [1] if (tier == "quick" and op in (7, 8, 13) and fld >= 2) else ladder      # attribute-like values through quoteattr: length 1 in the quick tier
+            conds.append(Cond("harness.h_c11", "h_readonly", t, part=fld * 100 + op, ladder=lad,
                               label="h_readonly[op=%d %s, field=%d]" % (op, OPS[op], fld)))
     if only:
         conds = [c for c in conds if only in c.label]
